@@ -21,7 +21,7 @@ def op(o, kind, i, **kw):
 def ev(t, **kw):
     d = {"t": t, "peer": "", "seq": 0, "node": "", "cp": "", "seid": "", "sref": 0, "rref": 0, "ops": [], "faults": [], "faults2": [],
          "reports": [], "tt": "", "tpeer": "", "tseq": 0, "raw": "", "maxrt": 0, "txseq0": "", "tag": "",
-         "mbase": "", "mut": {"op": "", "k": 0, "v": 0, "s": ""}, "lax": False}
+         "mbase": "", "mut": {"op": "", "k": 0, "v": 0, "s": ""}, "lax": False, "rts": 0}
     d.update(kw)
     return d
 
@@ -118,7 +118,8 @@ class Gen:
             if s["node"] == node:
                 s["alive"] = False
         self.assoc[node] = peer
-        return self.emit(ev("assoc", peer=peer, seq=self.nseq(peer), node=node))
+        # the peer's own recovery time stamp: usually the same, now and then older (a delayed or restarted-clock peer) or newer
+        return self.emit(ev("assoc", peer=peer, seq=self.nseq(peer), node=node, rts=r.choice([0, 0, 0, -3600, -1, 5, 86400])))
 
     def est_ev(self, pfault=0.0, bad=0.1, maxops=5, cps=("1", "2", "7", "100")):
         r = self.r
@@ -158,8 +159,15 @@ class Gen:
         s = self.pick_sess()
         if s is None or r.random() < lit:
             peer = "p%d" % r.randint(1, self.npeers)
-            return self.emit(ev("mod", peer=peer, seq=self.nseq(peer), seid=self.seid_literal(),
-                                ops=[op("create", "far", 1)] if r.random() < 0.5 else []))
+            # sometimes with a CP F-SEID IE naming a live session's CP SEID, from that session's peer: the header SEID addresses
+            # the session, nothing else does
+            cp = ""
+            alive = [x for x in self.sess if x["alive"]]
+            if alive and r.random() < 0.5:
+                t = r.choice(alive)
+                cp, peer = t["cp"], t["peer"]
+            return self.emit(ev("mod", peer=peer, seq=self.nseq(peer), seid=self.seid_literal(), cp=cp,
+                                ops=[op("create", "far", 1), op("remove", "far", 2)] if r.random() < 0.5 else []))
         peer = s["peer"] if r.random() < 0.9 else "p%d" % r.randint(1, self.npeers)
         if r.random() < 0.04:
             # a Node ID IE that cannot be decoded, together with rule IEs: if the request goes unanswered it must leave no trace
@@ -209,6 +217,34 @@ class Gen:
             other = [x for x in self.pal["urr"] if x != u] or [u]
             second = op("update", "pdr", p, urrs=[r.choice(other)], hasurrs=True)
         return self.emit(ev("mod", peer=s["peer"], seq=self.nseq(s["peer"]), sref=s["ord"], ops=[second]))
+
+    def recreate_ev(self):
+        """a URR that a PDR names is removed and created again under the same id; later that PDR - its only referrer - goes or
+        is re-pointed: the re-created URR's final usage is due (C12: 'precisely those PDRs whose current URR list names it')"""
+        r = self.r
+        s = self.pick_sess(1.0)
+        if s is None or not s["alive"]:
+            return self.mod_ev()
+        u = r.choice(self.pal["urr"])
+        p = r.choice(self.pal["pdr"])
+        snd = lambda ops: self.emit(ev("mod", peer=s["peer"], seq=self.nseq(s["peer"]), sref=s["ord"], ops=ops))
+        if u not in s["ids"]["urr"]:
+            snd([op("create", "urr", u, meth=2)])
+        if p in s["ids"]["pdr"]:
+            snd([op("update", "pdr", p, urrs=[u], hasurrs=True)])
+        else:
+            snd([op("create", "pdr", p, urrs=[u], hasurrs=True)])
+        s["ids"]["urr"].add(u)
+        s["ids"]["pdr"].add(p)
+        snd([op("remove", "urr", u)])
+        snd([op("create", "urr", u, meth=r.choice([2, 3]))])
+        if r.random() < 0.3:
+            self.report_ev()
+        if r.random() < 0.5:
+            s["ids"]["pdr"].discard(p)
+            return snd([op("remove", "pdr", p)])
+        other = [x for x in self.pal["urr"] if x != u]
+        return snd([op("update", "pdr", p, urrs=[r.choice(other)], hasurrs=True)])
 
     def del_ev(self, lit=0.1):
         r = self.r
@@ -312,7 +348,7 @@ def lifecycle(seed, n, length=60, pfault=0.15):
     out = []
     for i in range(n):
         rng = random.Random(seed * 1000003 + i)
-        g = Gen(rng, npeers=rng.choice([2, 3, 4]))
+        g = Gen(rng, npeers=rng.choice([2, 3, 4, 5, 5]))
         pf = rng.choice([0.0, 0.1, pfault, 0.5])
         g.assoc_ev(node="n1", peer="p1")
         for _ in range(length):
@@ -400,6 +436,27 @@ def rxtx(seed, n, length=70):
     return out
 
 
+def seqlong(sid, rng, per, rounds, meth=2):
+    """a URR that reports per * rounds times (plus a second URR as control): UR-SEQN must simply keep counting"""
+    vals = {k: "" for k in ("tv", "uv", "dv", "tp", "up", "dp", "st", "et", "du")}
+    g = Gen(rng, npeers=2)
+    g.assoc_ev(node="n1", peer="p1")
+    g.emit(ev("est", peer="p1", seq=g.nseq("p1"), node="n1", cp="7", ops=[op("create", "urr", 1, meth=meth), op("create", "urr", 2, meth=2)]))
+    for r_ in range(rounds):
+        reps = [{"k": "usar", "urr": 1, "trig": 2, "pdr": 0, "action": 0, "pkt": "", "tok": 0, "vals": dict(vals)} for _ in range(per)]
+        reps.insert(rng.randrange(per), {"k": "usar", "urr": 2, "trig": 4, "pdr": 0, "action": 0, "pkt": "", "tok": 0, "vals": dict(vals)})
+        g.emit(ev("report", sref=1, reports=reps))
+        if r_ % 7 == 3:
+            g.emit(ev("mod", peer="p1", seq=g.nseq("p1"), sref=1, ops=[op("query", "urr", 1)]))
+    g.emit(ev("del", peer="p1", seq=g.nseq("p1"), sref=1))
+    return script(sid, g, maxrt=1)
+
+
+def seq16(seed):
+    """C11 only: more than 65 536 reports over the lifetime of one URR (no volume measurement: 1 100 reports fit a datagram)"""
+    return [seqlong("us-%d-seq16" % seed, random.Random(seed * 1000037 + 3333), 1100, 61, meth=1)]
+
+
 def usage(seed, n, length=70, pfault=0.0):
     """C10 C11 C12: URR / PDR relation, queries, removals, reports from the data plane, deletion"""
     out = []
@@ -412,7 +469,9 @@ def usage(seed, n, length=70, pfault=0.0):
             g.est_ev(bad=0, maxops=6)
         for _ in range(length):
             x = rng.random()
-            if x < 0.03:
+            if x < 0.015:
+                g.recreate_ev()
+            elif x < 0.03:
                 g.dupattach_ev()
             elif x < 0.06:
                 g.detach_ev()
@@ -430,6 +489,9 @@ def usage(seed, n, length=70, pfault=0.0):
                 g.dup_ev()
         # a third of the histories run against a permissive data plane (answers queries for URRs it has removed)
         out.append(script("us-%d-%d" % (seed, i), g, maxrt=1, lax=(i % 3 == 2)))
+    # hundreds of reports for one URR (its UR-SEQN passes 255 / 256): notifications with 150 reports each
+    for j in range(max(1, n // 60)):
+        out.append(seqlong("us-%d-seq%d" % (seed, j), random.Random(seed * 1000037 + 4444 + j), 150, 3))
     # one URR named by some hundred PDRs (more than 255 and 256): the final usage is due when the LAST of them goes, not before
     for j in range(max(1, n // 60)):
         rng = random.Random(seed * 1000037 + 5555 + j)
